@@ -94,9 +94,10 @@ class C12(Check):
         return node_models(tier, ('security_fail_open',))
 
     def rule(self):
-        return ('20 security-block variants (none, good, bad tag, unknown context, missing target, duplicate parameter '
+        return ('24 security-block variants (none, good, bad tag, unknown context, missing target, duplicate parameter '
                 '/ result ids, garbled COSE, garbled or truncated security block, two blocks with the bad one first / '
-                'second, BCB good / altered ciphertext / unknown context / garbled) x receiver key right/wrong/absent x '
+                'second, BCB good / altered ciphertext / unknown context / garbled, BCB over [BIB, payload] good / bad tag / other '
+                'MAC key / altered ciphertext) x receiver key right/wrong/absent x '
                 'accept on/off, plus the COSE_Mac0 / COSE_Encrypt0 coverage sweep labelled by the independent '
                 'verifier; the probe application records what is consumed')
 
